@@ -89,6 +89,8 @@ class Ctx:
         self.fresh_n = 0
         self.path_decisions = 0
         self.env = {}           # per-path scratch for models/stubs
+        self.fp_logic = os.environ.get('SYMX_FP_LOGIC', '')
+        self._last = None
 
     # -- per-path reset ----------------------------------------------------
     def begin_path(self, prefix):
@@ -128,7 +130,19 @@ class Ctx:
 
     def check(self, *extra):
         t = time.time()
-        r = self.solver.check(*extra)
+        if self.logic == 'QF_BV':
+            s = self.solver
+            r = s.check(*extra)
+        else:
+            # Floating point: a fresh, non-incremental solver per query lets
+            # z3 use its tactic pipeline (fpa2bv + bit-blasting + SAT), which
+            # is orders of magnitude faster than the incremental SMT core.
+            s = z3.SolverFor(self.fp_logic) if self.fp_logic else z3.Solver()
+            s.set('timeout', self.solver_timeout_ms)
+            s.add(*self.solver.assertions())
+            s.add(*extra)
+            r = s.check()
+        self._last = s
         self.solver_s += time.time() - t
         self.queries[str(r)] = self.queries.get(str(r), 0) + 1
         return r
@@ -137,7 +151,7 @@ class Ctx:
         if self._m is None:
             r = self.check()
             if r == z3.sat:
-                self._m = self.solver.model()
+                self._m = self._last.model()
             elif r == z3.unsat:
                 raise Infeasible()
             else:
@@ -1032,7 +1046,7 @@ def explore(fn, W=64, seed=0, max_paths=200000, deadline=None,
                 r = ctx.check(z3.Not(ok))
                 res['verdict'] = str(r)
                 if r == z3.sat:
-                    res['cex'] = ctx.assignment_from_model(ctx.solver.model())
+                    res['cex'] = ctx.assignment_from_model(ctx._last.model())
             if ctx.obligations:
                 r = ctx.check(z3.Not(z3.And(*ctx.obligations)))
                 if r != z3.unsat:
